@@ -432,6 +432,13 @@ func corpus(c *sim.Ctx, big bool) ([][]byte, []gopacket.Decoder) {
 				c.Fault("header_numbers_replaced")
 			}
 		}
+		if c.Chance(40) && len(b) >= 34 && b[12] == 0x08 && b[13] == 0x00 && (first == gopacket.Decoder(layers.LayerTypeEthernet) || first == gopacket.Decoder(layers.LinkTypeEthernet)) {
+			// as captured on a host with TCP segmentation offload: the IPv4
+			// total-length field is still zero
+			b = append([]byte(nil), b...)
+			b[16], b[17] = 0, 0
+			c.Fault("ipv4_total_length_zero")
+		}
 		switch c.Weighted(5, 2, 2) {
 		case 1:
 			b = b[:c.Draw(len(b)+1)]
@@ -816,6 +823,9 @@ type owned struct {
 	in     int
 	live   bool
 	bulk   bool // one of a row of pooled decodes: examined when given back
+	// untouched: a lazily decoded packet nobody has looked at yet; it is first
+	// looked at after the producer has reused its input buffer
+	untouched bool
 }
 
 // base is the address of the first byte of the packet's data (0 for a packet
@@ -917,6 +927,16 @@ func simC04(c *sim.Ctx) {
 					p := gopacket.NewPacket(in, firsts[o.a], do)
 					ow := &owned{p: p, in: o.a, live: true, nocopy: do.NoCopy}
 					_, ow.pooled = p.(gopacket.PooledPacket)
+					if do.Lazy && !do.NoCopy && len(in) > 0 && !overwritten[o.a].Load() && o.a%2 == 1 {
+						// A lazily decoded packet that nobody has looked at yet: whenever it
+						// is first looked at it has to render like the default decode of the
+						// bytes it was given - also if the producer has reused its buffer
+						// in between.
+						ow.sig, ow.untouched = refsig[o.a], true
+						w.Rec("decode-untouched", int64(o.a), int64(o.b), b2i(ow.pooled), "", nil)
+						own[wi] = append(own[wi], ow)
+						continue
+					}
 					ow.sig = signature(p)
 					w.Rec("decode", int64(o.a), int64(o.b), b2i(ow.pooled), "", nil)
 					// (lazy decoding of an empty input is outside the lazy/eager equivalence)
@@ -993,7 +1013,8 @@ func simC04(c *sim.Ctx) {
 					}
 					w.Rec("overwrite", int64(o.a), 0, 0, "", nil)
 					for _, q := range own[wi] {
-						if q.live {
+						if q.live && (!q.untouched || q.in == o.a) {
+							q.untouched = false
 							check(q, "after the producer overwrote input "+fmt.Sprint(o.a))
 						}
 					}
@@ -1024,7 +1045,7 @@ func simC04(c *sim.Ctx) {
 				}
 				for _, q := range own[wi] {
 					// (the packets of a row are looked at when they are given back)
-					if q.live && !q.bulk {
+					if q.live && !q.bulk && !q.untouched {
 						check(q, "while other goroutines decode and dispose")
 					}
 				}
